@@ -304,6 +304,25 @@ def srv_dist(rs):
 
 SRV_STREAM = {"name": "srv", "quick": 4000, "thorough": 200000, "sep": ";", "batch": 4000,
               "nontrivial": srv_nontrivial, "distribution": srv_dist}
+def srvk_dist(rs):
+    d = {"acceptor": {}, "faults": {}, "faults_before_first_poll": 0, "observations": {}}
+    for r in rs:
+        t = r["input"].split()
+        d["acceptor"][t[2]] = d["acceptor"].get(t[2], 0) + 1
+        for f in t[4::2]:
+            d["faults_before_first_poll"] += f.startswith("pre:")
+            f = f.replace("pre:", "")
+            d["faults"][f] = d["faults"].get(f, 0) + 1
+        d["observations"][r["obs"]] = d["observations"].get(r["obs"], 0) + 1
+    return d
+
+SRVK_STREAM = {"name": "srvk", "quick": 60, "thorough": 3000, "sep": ";", "batch": 4000, "exhaustive": "srvk-exhaustive",
+               "exhaustive_always": True, "nontrivial": lambda r: len(r["input"].split()) > 5, "distribution": srvk_dist}
+SRVK_RULE = (" | srvk: the real Server (HTTP/1 or auto) on kernel and TLS acceptors - TcpListener, UnixListener, TCP+TLS, duplex+TLS "
+             "(real rustls, harness/certs) - in real time: 1-5 misbehaving clients (RST with SO_LINGER 0, immediate close, garbage, "
+             "partial head, partial TLS record, stalled), each either before the server future is first polled (sitting in the "
+             "listen backlog) or after, then a well-behaved probe (a real TLS client on the TLS acceptors); every run includes the "
+             "grid protocol x acceptor x fault x {before, after} (96 cases)")
 SRV_RULE = ("op sequences (connect, connect-then-give-up, complete / partial / rest-of / garbage request, partial HTTP/2 preface, "
             "handler release, client disconnect, shutdown signal, listener loss) for up to 4 raw clients against the real Server "
             "(HTTP/1 or auto-detecting; with and without graceful shutdown; raw DuplexIncoming or Acceptor-wrapped; make-service "
@@ -312,7 +331,7 @@ SRV_RULE = ("op sequences (connect, connect-then-give-up, complete / partial / r
 SRV_ASSUMES = ["hyper's HTTP/1 server connection: one exchange at a time; after graceful_shutdown it finishes the exchange it "
                "has started reading and closes; an idle one closes at once; garbage closes the connection (rules of Model/Server.lean)",
                "tokio watch/mpsc semantics; all tasks run to quiescence after every op (coarser than arbitrary interleavings)",
-               "OS-level accept errors of TCP/Unix listeners and TLS handshakes are not exercised by this stream",
+               "kernel accept errors other than those provoked by reset/closed backlog entries (EMFILE, ENOBUFS, ...) are not exercised; on TCP/Unix/TLS acceptors only the outcome (server still running, probe served) is compared, not intermediate states",
                "HTTP/2 connections are only taken as far as the preface"]
 
 PROPS = {
@@ -323,8 +342,9 @@ PROPS = {
             "streams": [SRV_STREAM], "rule": SRV_RULE, "assumes": SRV_ASSUMES},
     "C09": {"props_module": "HdModel.Props.C09", "class_prefix": ["C09/"],
             "theorems": ["Hd.Server.C09_only_three_exits", "Hd.Server.C09_isolation", "Hd.Server.C09_cancelled_connect_harmless",
-                         "Hd.Server.legitEnd_step", "Hd.Server.step_srv_cases"],
-            "streams": [SRV_STREAM], "rule": SRV_RULE, "assumes": SRV_ASSUMES},
+                         "Hd.Server.legitEnd_step", "Hd.Server.step_srv_cases", "Hd.Server.C09_faults_do_not_stop_service",
+                         "Hd.Server.C09_kernel_stream", "Hd.Server.probe_served", "Hd.Server.untouched_step"],
+            "streams": [SRV_STREAM, SRVK_STREAM], "rule": SRV_RULE + SRVK_RULE, "assumes": SRV_ASSUMES},
     "C02": pool_prop("HdModel.Props.C02", ["C02/"], ["Hd.Pool.C02_single_delivery", "Hd.Pool.C02_delivered_not_idle",
         "Hd.Pool.C02_handback_only_when_ready", "Hd.Pool.C02_pop_not_busy", "Hd.Pool.C02_exec_marks_busy"]),
     "C03": pool_prop("HdModel.Props.C03", ["C03/"], ["Hd.Pool.C03_cancel_releases", "Hd.Pool.C03_owner_drop_cancels",
